@@ -199,8 +199,23 @@ func (m *mux) ensureContext(r *http.Request) *chi.Context {
 	if ctx.RoutePattern() != "" {
 		return ctx // already initialized
 	}
-	if !m.Router.Match(ctx, r.Method, r.URL.Path) {
+	// The request has not been routed yet (the caller is a middleware
+	// registered with Use). Match it against a scratch context so that the
+	// context chi is about to use to route the request is left untouched, and
+	// use the same path chi is going to route on.
+	path := ctx.RoutePath
+	if path == "" {
+		path = r.URL.RawPath
+	}
+	if path == "" {
+		path = r.URL.Path
+	}
+	if path == "" {
+		path = "/"
+	}
+	scratch := chi.NewRouteContext()
+	if !m.Router.Match(scratch, r.Method, path) {
 		return nil // route not handled by chi
 	}
-	return ctx
+	return scratch
 }
